@@ -1,7 +1,7 @@
 (* Property C14 -- correlator arithmetic acts timeslice-wise and propagates undefined slices; index transformations
    are the stated permutations / averages; no method stores into its arguments.  Theorems only. *)
 From Coq Require Import ZArith QArith List Bool String.
-From PV Require Import Base.QAux Corr.Ops.
+From PV Require Import Base.QAux Corr.Ops Corr.ProjThm.
 From PVG Require Import EffectsGen.
 Import ListNotations.
 
@@ -48,6 +48,21 @@ Theorem symmetrised_slice_undefined_iff_a_partner_is :
   forall sgn a b, half_comb sgn a b <> None -> a <> None /\ b <> None.
 Proof. exact half_comb_undefined. Qed.
 
+(* projected with one vector pair per timeslice: the entry is the double sum sum_ij l_i C_ij(t) r_j of that timeslice's own vectors,
+   and the timeslice is undefined exactly when the correlator's timeslice or one of the two vectors is *)
+Theorem projected_per_timeslice_is_the_double_sum :
+  forall vls vrs (a : corr) t,
+  List.length vls = List.length a -> List.length vrs = List.length a -> (t < List.length a)%nat ->
+  (forall m l r, snth a t = Some m -> nth t vls None = Some l -> nth t vrs None = Some r ->
+                 square (List.length m) m /\ List.length l = List.length m /\ List.length r = List.length m) ->
+  slice_Qeq (snth (projected_l vls vrs a) t) (spec_at a (OpProjectedL vls vrs) t).
+Proof. exact projected_l_is_the_specified_double_sum. Qed.
+Theorem projected_per_timeslice_undefined_iff :
+  forall vls vrs (a : corr) t,
+  List.length vls = List.length a -> List.length vrs = List.length a -> (t < List.length a)%nat ->
+  (snth (projected_l vls vrs a) t = None <-> snth a t = None \/ nth t vls None = None \/ nth t vrs None = None).
+Proof. exact projected_l_undefined_iff. Qed.
+
 (* Non-vacuity: T = 4 with an undefined slice: roll by 5 = roll by 1; symmetric; Hankel *)
 Example c14_examples :
   let c := [Some [[1]]; None; Some [[3]]; Some [[5]]] in
@@ -61,3 +76,5 @@ Print Assumptions binary_operation_is_timeslicewise.
 Print Assumptions roll_moves_slice_t_to_t_plus_dt.
 Print Assumptions thin_keeps_every_spacing_th_slice.
 Print Assumptions symmetrisation_averages_t_with_T_minus_t.
+Print Assumptions projected_per_timeslice_is_the_double_sum.
+Print Assumptions projected_per_timeslice_undefined_iff.
